@@ -1544,11 +1544,21 @@ def r5_15(ctx):
                 src = a0.value.id
                 n += 1
                 ext = []
+                staged = set()   # local lists that end up in self._spans through extend
                 for c in calls("self._spans.extend"):
                     e = c.args[0] if c.args else None
+                    if isinstance(e, ast.Name):
+                        staged.add(e.id)
+                    from_loop = False
+                    if isinstance(e, ast.Name):
+                        # a list filled span by span in a loop over <src>._spans
+                        for lp in walk_local(f.node):
+                            if isinstance(lp, ast.For) and any(isinstance(y, ast.Attribute) and y.attr == "_spans" and isinstance(y.value, ast.Name) and y.value.id == src for y in ast.walk(lp.iter)):
+                                if any(isinstance(y, ast.Call) and norm(expand_alias(y.func, al) if isinstance(y.func, ast.Name) else y.func) == f"{e.id}.append" for b in lp.body for y in ast.walk(b)):
+                                    from_loop = True
                     if isinstance(e, ast.Name) and e.id in sd:
                         e = sd[e.id]
-                    if e is not None and any(isinstance(y, ast.Attribute) and y.attr == "_spans" and isinstance(y.value, ast.Name) and y.value.id == src for y in ast.walk(e)):
+                    if from_loop or (e is not None and any(isinstance(y, ast.Attribute) and y.attr == "_spans" and isinstance(y.value, ast.Name) and y.value.id == src for y in ast.walk(e))):
                         ext.append(c)
                 okx = False
                 for c in ext:
@@ -1561,6 +1571,8 @@ def r5_15(ctx):
                 ctx.check(okx, f.fq, short(fst), where, f"the spans of `{src}` are added wherever its characters are",
                           f"`{short(fst)}` appends the characters of `{src}` but no `self._spans.extend(..)` built from `{src}._spans` runs on the same paths: the appended text arrives without its styles")
                 base = [c for c in calls("self._spans.append") if any(isinstance(y, ast.Attribute) and y.attr == "style" and isinstance(y.value, ast.Name) and y.value.id == src for y in ast.walk(c))]
+                for lst in staged:
+                    base += [c for c in calls(f"{lst}.append") if any(isinstance(y, ast.Attribute) and y.attr == "style" and isinstance(y.value, ast.Name) and y.value.id == src for y in ast.walk(c))]
                 ctx.check(bool(base), f.fq, f"{short(fst)} (base style)", where, f"the base style of `{src}` is added as a span", f"`{short(fst)}`: the base style of `{src}` (`{src}.style`) is not carried over as a span: text appended from a Text with a base style loses it")
             else:
                 # a plain string: if the method has a style for it, the style must be recorded
